@@ -418,6 +418,9 @@ var opTable = []opDef{
 				// keep it: it is undone later, after other edits of the same tree object
 				h.pending, h.pendingOn = rs[k], h.t
 				d += " (kept for a later Undo)"
+			default:
+				// this rearrangement stays: one kept earlier can no longer be undone (its four subtrees may have changed)
+				h.pending = nil
 			}
 		}
 		return d, err, true
